@@ -29,6 +29,7 @@ import (
 
 // InstallSoften wires the "not decided" policy into the run.
 func (c *Ctx) InstallSoften() {
+	c.installGlobalValues()
 	byName := map[string]*ssa.Function{}
 	for _, fn := range c.P.LibFunctions() {
 		byName[name(fn)] = fn
